@@ -386,6 +386,16 @@ func (r *rpf) assign(l ast.Expr, v *Val, define bool) {
 	if !ok && r.stHook != nil && r.stHook(r, l, v) {
 		return
 	}
+	if sel, isSel := l.(*ast.SelectorExpr); isSel {
+		// field of a struct value built locally in this fold (fresh literal bound to a local variable)
+		if bid, isId := sel.X.(*ast.Ident); isId {
+			obj := r.p.TypesInfo.Uses[bid]
+			if cur, has := r.env[obj]; has && cur.K == VStruct && cur.Local {
+				cur.Fields[sel.Sel.Name] = v
+				return
+			}
+		}
+	}
 	if !ok {
 		rpfFail("%s: assignment to non-variable", r.c.pos(l.Pos()))
 	}
@@ -530,7 +540,7 @@ func (r *rpf) expr(e ast.Expr) *Val {
 		ut := t.Underlying()
 		switch st := ut.(type) {
 		case *types.Struct:
-			v := &Val{K: VStruct, Fields: map[string]*Val{}, T: t, Pos: x.Pos()}
+			v := &Val{K: VStruct, Fields: map[string]*Val{}, T: t, Pos: x.Pos(), Local: true}
 			for i, el := range x.Elts {
 				if kv, ok := el.(*ast.KeyValueExpr); ok {
 					v.Fields[kv.Key.(*ast.Ident).Name] = r.expr(kv.Value)
